@@ -1326,7 +1326,23 @@ func (c *tctx) fragment(body *ast.BlockStmt) (string, string, string) {
 					return true
 				}
 				key := norm(c.fset, call.Args[0])
-				if kc, ok := call.Args[0].(*ast.CallExpr); ok {
+				arg := call.Args[0]
+				if id, isId := arg.(*ast.Ident); isId {
+					// a key built once and kept in a local: `key := types.UTXRStoreKey(...)`
+					ast.Inspect(b, func(n2 ast.Node) bool {
+						if as, ok := n2.(*ast.AssignStmt); ok && len(as.Lhs) == len(as.Rhs) && as.Pos() < call.Pos() {
+							for i := range as.Lhs {
+								if l, ok := as.Lhs[i].(*ast.Ident); ok && l.Name == id.Name {
+									if _, isCall := as.Rhs[i].(*ast.CallExpr); isCall {
+										arg = as.Rhs[i]
+									}
+								}
+							}
+						}
+						return true
+					})
+				}
+				if kc, ok := arg.(*ast.CallExpr); ok {
 					key = norm(c.fset, kc.Fun)
 					if i := strings.LastIndex(key, "."); i >= 0 {
 						key = key[i+1:]
